@@ -26,6 +26,35 @@ pub fn search(rng: &mut Rng, budget: u64, fails: &mut Vec<Failure>) {
     rt_enum!(fails, DisplayOffset, [DisplayOffset::Auto, DisplayOffset::Never]);
     rt_enum!(fails, DisplayTimeZone, [DisplayTimeZone::Auto, DisplayTimeZone::Never, DisplayTimeZone::Critical]);
     if fails.len() >= 5 { return; }
+    // time-zone identifiers and UTC offsets survive a print / parse round trip; a zoned date-time in a fixed-offset zone prints
+    // +-HH:MM and parses back to the same instant in the same zone
+    for text in ["+05:30", "-05:30", "-00:45", "+00:00", "-23:59", "+14:00", "-03:30", "UTC", "America/New_York", "Etc/GMT+5", "Etc/GMT-14", "Asia/Kolkata"] {
+        match catch_unwind(|| temporal_rs::TimeZone::try_from_str(text).and_then(|z| z.identifier())) {
+            Ok(Ok(id)) if id == text => {}
+            other => fails.push(Failure { what: "TimeZone identifier round trip".into(), input: text.to_string(), expected: text.to_string(), observed: format!("{:?}", other.map(|r| r.ok())) }),
+        }
+        if text.starts_with('+') || text.starts_with('-') {
+            let sign: i128 = if text.starts_with('-') { -1 } else { 1 };
+            let mins: i128 = text[1..3].parse::<i128>().unwrap() * 60 + text[4..6].parse::<i128>().unwrap();
+            let inst: i128 = 1_700_000_000_123_000_000;
+            if let Ok(tz) = temporal_rs::TimeZone::try_from_str(text) {
+                if let Ok(z) = temporal_rs::ZonedDateTime::try_new(inst, Calendar::default(), tz) {
+                    let local = inst + sign * mins * 60_000_000_000;
+                    let r = catch_unwind(|| z.to_plain_datetime().map(|p| (p.hour() as i128 * 60 + p.minute() as i128, p.second())));
+                    let want_min = local.div_euclid(60_000_000_000).rem_euclid(1440);
+                    match r { Ok(Ok((m, _))) if m == want_min => {}, other => fails.push(Failure { what: "fixed-offset zone wall clock".into(), input: format!("zone={text} epoch_ns={inst}"), expected: format!("minute of day {want_min}"), observed: format!("{:?}", other.map(|x| x.ok())) }) }
+                    if let Ok(txt) = catch_unwind(|| z.to_string()) {
+                        if !txt.contains(&format!("{text}[{text}]")) { fails.push(Failure { what: "ZonedDateTime text of a fixed-offset zone".into(), input: format!("zone={text}"), expected: format!("...{text}[{text}]"), observed: txt.clone() }); }
+                        match catch_unwind(|| temporal_rs::ZonedDateTime::from_str(&txt, Disambiguation::Reject, OffsetDisambiguation::Reject).map(|b| b.epoch_nanoseconds().as_i128())) {
+                            Ok(Ok(b)) if b == inst => {}
+                            other => fails.push(Failure { what: "ZonedDateTime format/parse".into(), input: format!("zone={text} epoch_ns={inst}"), expected: format!("{txt} parses back to {inst}"), observed: format!("{:?}", other.map(|x| x.ok())) }),
+                        }
+                    }
+                }
+            }
+        }
+        if fails.len() >= 5 { return; }
+    }
     // value round trips
     for k in 0..(budget / 20) {
         let n = match k { 0 => oracle::MIN_DAY + 1, 1 => oracle::MAX_DAY, 2 => oracle::days_from_civil(0, 1, 1), 3 => oracle::days_from_civil(9999, 12, 31), 4 => oracle::days_from_civil(10000, 1, 1), 5 => oracle::days_from_civil(-1, 12, 31),
